@@ -40,7 +40,14 @@ def run(ctx):
         # ---- R08.1
         nsearch = 0
         for bid, i, e in f.roots():
-            for n in walk(e["expr"]):
+            nodes = list(walk(e["expr"]))
+            # direct-initialisation with a dependent type, `std::sregex_iterator it(a, b, re)`, shows up as a parenthesised list
+            if e["expr"].get("k") == "decl":
+                for v in e["expr"].get("vars", []):
+                    iu = ir.unwrap(v.get("init")) if v.get("init") is not None else None
+                    if isinstance(iu, dict) and iu.get("k") in ("paren_list", "init_list") and "regex_iterator" in (v.get("type") or ""):
+                        nodes.append({"k": "construct", "name": v.get("type"), "args": list(iu.get("elems", iu.get("kids", []))), "ln": e.get("ln")})
+            for n in nodes:
                 subj = None
                 k = n.get("k")
                 nm = n.get("name") or n.get("type") or ""
